@@ -2,7 +2,7 @@
 import time, zlib
 from vlib import core, schema
 from vlib import gen as G
-from vlib.core import hx, unhx, Verdict, F_LIST, F_MULTI, F_TITLE, F_IGNORE_UNKNOWN
+from vlib.core import hx, unhx, Verdict, F_LIST, F_MULTI, F_TITLE, F_IGNORE_UNKNOWN, F_COMMENTS
 from vlib.schema import D
 
 PROP = 'C12'
@@ -19,7 +19,7 @@ DECLS = [D('i', 'int', default=1), D('f', 'float', default=0.5), D('b', 'bool', 
 
 RULE = ('accepted texts over a fixed schema x every item boundary at every depth x generated unknown items (assignment, list incl. empty, append, function call, plain and titled '
         'sections that are empty / end in a scalar / a list / a call / contain known names, nested recursively) plus multi-insertions; with CFGF_IGNORE_UNKNOWN the return code and the '
-        'values-only tree hash must equal the uninserted run and no diagnostic may appear; without the flag the same text must be rejected with a diagnostic. A nesting ladder of unknown '
+        'values-only tree hash must equal the uninserted run and no diagnostic may appear (a third of the insertions carry a comment of their own and are parsed with annotation support on: then values and annotations together must equal the uninserted run); without the flag the same text must be rejected with a diagnostic. A nesting ladder of unknown '
         'sections 10^2..10^5 deep bounds the stack. non-trivial: the inserted item is a list, call or section; distinct = (text, insertion point, item)')
 
 NAMES = ['u', 'unk', 'x_new', 'zz9', 'future.opt', 'x', 'y', 'z']      # x/y/z are known only at other levels
@@ -126,7 +126,7 @@ def gen(tier, seed):
         for b in bs:
             kind, txt = unk_item(rng, 0, names_at(items, b[0]))
             # inside a free-form key=value section an undeclared assignment is a new key when the flag is off
-            variants.append([kind, '\n'.join(render(items, {b: txt})) + '\n', in_keyval(items, b[0])])
+            variants.append([kind, '\n'.join(render(items, {b: '@C@' + txt})) + '\n', in_keyval(items, b[0])])
         for _ in range(3):
             ins = {}
             kinds = []
@@ -137,11 +137,20 @@ def gen(tier, seed):
             variants.append(['multi', '\n'.join(render(items, ins)) + '\n', any(in_keyval(items, b[0]) for b in ins)])
         # everything on one line
         kind, txt = unk_item(rng, 0, [d.name for d in DECLS])
-        variants.append([kind, ' '.join(render(items, {((), rng.randint(0, len(items))): txt})) + '\n', False])
+        variants.append([kind, ' '.join(render(items, {((), rng.randint(0, len(items))): '@C@' + txt})) + '\n', False])
         # the unknown item is the very last thing in the input, no newline after it
         kind, txt = unk_item(rng, 0, [d.name for d in DECLS])
-        variants.append([kind, '\n'.join(render(items, {((), len(items)): txt})), False])
-        yield {'kind': 'ins', 'base': base, 'variants': variants}
+        variants.append([kind, '\n'.join(render(items, {((), len(items)): '@C@' + txt})), False])
+        # a third of the insertions carry a comment of their own in front, and are then parsed with annotation support on:
+        # the comment belongs to the skipped item and must not end up as the annotation of a declared option
+        for var in variants:
+            oneline = '\n' not in var[1].strip()
+            if rng.random() < 0.35 and var[0] != 'multi':
+                cm = rng.choice(['/* note */ ', '/* note */\n'] if oneline else ['# note\n', '// note\n', '/* note */ ', '/* two\n lines */\n'])
+                var.append(cm)
+            else:
+                var.append('')
+        yield {'kind': 'ins', 'base': base, 'variants': variants, 'marker': 1}
     for depth in (100, 1000, 10000, 100000):
         for shape in ('plain', 'titled', 'mixed'):
             yield {'kind': 'ladder', 'depth': depth, 'shape': shape}
@@ -164,10 +173,18 @@ def script(spec):
               'init 0 %d %d' % (sid, F_IGNORE_UNKNOWN), 'parse_buf 0 %s' % hx(text), 'vhash 0', 'free 0']
         return '\n'.join(L)
     L += ['init 0 %d %d' % (sid, F_IGNORE_UNKNOWN), 'parse_buf 0 %s' % hx(spec['base']), 'vhash 0', 'free 0']
-    for kind, text, *_ in spec['variants']:
-        L += ['note v', 'init 0 %d %d' % (sid, F_IGNORE_UNKNOWN), 'parse_buf 0 %s' % hx(text), 'vhash 0', 'free 0',
+    L += ['init 0 %d %d' % (sid, F_IGNORE_UNKNOWN | F_COMMENTS), 'parse_buf 0 %s' % hx(spec['base']), 'vhash 0 1', 'free 0']
+    for var in spec['variants']:
+        text, cm = vtext(var)
+        fl = F_IGNORE_UNKNOWN | (F_COMMENTS if cm else 0)
+        L += ['note v', 'init 0 %d %d' % (sid, fl), 'parse_buf 0 %s' % hx(text), 'vhash 0 %d' % (1 if cm else 0), 'free 0',
               'note off', 'init 0 %d 0' % sid, 'parse_buf 0 %s' % hx(text), 'free 0']
     return '\n'.join(L)
+
+
+def vtext(var):
+    cm = var[3] if len(var) > 3 else ''
+    return var[1].replace('@C@', cm), cm
 
 
 def judge(spec, events, death):
@@ -203,15 +220,20 @@ def judge(spec, events, death):
     if not br or br[0]['rc'] != 0 or not bh:
         v.skipped = True          # base text not accepted (generator): nothing to compare
         return v
-    base_diags = sorted(unhx(e['msg']) for e in head if e.get('ev') == 'diag')      # deprecated options legitimately report
+    first = next(k for k, e in enumerate(head) if e.get('ev') == 'vhash')
+    base_diags = sorted(unhx(e['msg']) for e in head[:first] if e.get('ev') == 'diag')      # deprecated options legitimately report
     base_h = bh[0]['h']
+    base_hc = bh[1]['h'] if len(bh) > 1 else None
     vi = -1
     for g in groups:
         r = [e for e in g[1:] if e.get('ev') == 'r' and e.get('op') == 'parse_buf']
         dg = [unhx(e['msg']) for e in g[1:] if e.get('ev') == 'diag']
         if g[0] == 'v':
             vi += 1
-            kind, text = spec['variants'][vi][:2]
+            kind = spec['variants'][vi][0]
+            text, cm = vtext(spec['variants'][vi])
+            if cm:
+                v.notes['insertions_with_own_comment'] = v.notes.get('insertions_with_own_comment', 0) + 1
             h = [e for e in g[1:] if e.get('ev') == 'vhash']
             v.notes['insertions'] = v.notes.get('insertions', 0) + 1
             v.notes.setdefault('item_kinds', set()).add(kind)
@@ -219,12 +241,16 @@ def judge(spec, events, death):
                 v.notes.setdefault('nt', set()).add(zlib.crc32(text.encode('latin-1')))
             if not r or r[0]['rc'] != 0:
                 v.bad('with-flag:rejected:%s' % kind, 'unknown item (%s) makes the text rejected under ignore-unknown: %r; text %r' % (kind, dg[:2], text[:300]))
-            elif h[0]['h'] != base_h:
+            elif cm and h[0]['h'] != base_hc:
+                v.bad('with-flag:values-or-annotations-changed:%s' % kind, 'unknown item (%s) preceded by a comment changes values or annotations under ignore-unknown + annotation support; text %r' % (kind, text[:300]))
+            elif not cm and h[0]['h'] != base_h:
                 v.bad('with-flag:values-changed:%s' % kind, 'unknown item (%s) changes values under ignore-unknown; text %r' % (kind, text[:300]))
-            elif sorted(dg) != base_diags:
+            elif (sorted(set(dg)) != sorted(set(base_diags))) if cm else (sorted(dg) != base_diags):
+                # (with a comment in front of the item the deprecation notice of the preceding option may repeat: that is the comment's doing, not the unknown item's; same notices = same set)
                 v.bad('with-flag:diagnostic:%s' % kind, 'unknown item (%s) changes the diagnostics under ignore-unknown: %r, without it %r; text %r' % (kind, dg[:3], base_diags[:3], text[:200]))
         else:
-            kind, text = spec['variants'][vi][:2]
+            kind = spec['variants'][vi][0]
+            text = vtext(spec['variants'][vi])[0]
             if len(spec['variants'][vi]) > 2 and spec['variants'][vi][2]:
                 continue        # insertion inside a key=value section: without the flag an assignment there is a legitimate new key
             if not r or r[0]['rc'] != 1:
